@@ -106,6 +106,22 @@ def _f(_o):
     return (_grid, _row, _d, _inner, _al, _o.g, _ah)
 trace("inplace-index", _f(obj()))
 `},
+	{"plus-chain-folding-order", false, true, `
+def _f(_x):
+    return _x + [t(907, 1)] + [t(908, 2)] + [t(909, 3)]
+def _g(_x):
+    return _x + "a" + "b" + str(t(910, 4)) + "c" + "d"
+def _h(_x):
+    return (t(911, 0),) + (t(912, 1),) + _x + (t(913, 2),) + (t(914, 3),)
+trace("fold", _g("s"), _h(()))
+trace("fold", _f([0]))
+trace("fold", _h(0))
+`},
+	{"plus-chain-folding-order-failing-left", false, true, `
+def _f(_x):
+    return _x + [t(915, 1)] + [t(916, 2)]
+trace("foldfail", _f(0))
+`},
 	{"nested-unpack-for", false, true, `
 def _f():
     _out = []
